@@ -217,6 +217,9 @@ def install_builtins(reg: Registry):
             return str(v)
         if hasattr(v, "sx_str"):
             return v.sx_str(ex, node)
+        from .logic import Name
+        if isinstance(v, z3.ExprRef) and v.sort() == Name:
+            return v                      # an indeterminate name is a string already
         return V.SymStr(("str", v))
 
     @b("max")
